@@ -479,6 +479,8 @@ def eval_wrap_case(case, keep_dir=None):
             findings.append({"class": "wrap.no_wrapper", "site": site, "msg": "no wrapper of the processed header invokes entry `%s` of `%s` of %s %s" % (m["entry"], m["field"], m["kind"], m["name"])})
         plans = case.get("plans") or [wrapsim.gen_plan(model, ps) for ps in case["plan_seeds"]]
         logs = hashlib.sha256()
+        hd = hashlib.sha256(r["output"]).hexdigest()
+        progs = []
         for pi, plan in enumerate(plans):
             san = bool(case.get("sanitize")) and pi == 0
             x = wrapsim.run_driver(d, model, config, plan, r["out_path"], tag=str(pi), sanitize=san)
@@ -486,9 +488,11 @@ def eval_wrap_case(case, keep_dir=None):
             stats["programs_sanitized"] = stats.get("programs_sanitized", 0) + (1 if san else 0)
             stats["slot_calls"] += x.get("slots", 0)
             logs.update(x.get("log", "").encode())
+            if x.get("slots", 0) > 0:
+                progs.append(hashlib.sha256((hd + x.get("log", "")).encode()).hexdigest())
             if x["violation"]:
                 return {"violation": x["violation"], "findings": findings, "stats": stats, "plan_index": pi}
-        return {"violation": None, "findings": findings, "stats": stats, "digest": hashlib.sha256(r["output"]).hexdigest(), "log_digest": logs.hexdigest()}
+        return {"violation": None, "findings": findings, "stats": stats, "digest": hd, "log_digest": logs.hexdigest(), "programs": progs}
     finally:
         if keep_dir is None:
             shutil.rmtree(d, ignore_errors=True)
@@ -515,9 +519,13 @@ def _eval_wrap_case_cpp(case, model, header, config, d, stats):
     types = hdrgen.object_types_cpp(model)
     plans = case.get("plans") or [wrapsim.gen_plan_types(types, ps) for ps in case["plan_seeds"]]
     logs = hashlib.sha256()
+    hd = hashlib.sha256(r["output"]).hexdigest()
+    progs = []
     for pi, plan in enumerate(plans):
         san = bool(case.get("sanitize")) and pi == 0
         x = wrapsim.run_driver_cpp(d, model, plan, out_hpp, tag=str(pi), sanitize=san)
+        if x.get("slots", 0) > 0 and not x["violation"]:
+            progs.append(hashlib.sha256((hd + x.get("log", "")).encode()).hexdigest())
         stats["programs"] += 1
         stats["programs_cpp"] = stats.get("programs_cpp", 0) + 1
         stats["programs_sanitized"] = stats.get("programs_sanitized", 0) + (1 if san else 0)
@@ -527,7 +535,7 @@ def _eval_wrap_case_cpp(case, model, header, config, d, stats):
             return {"violation": x["violation"], "findings": findings, "stats": stats, "plan_index": pi}
         if x.get("finding") and not any(f["site"] == x["finding"]["site"] for f in findings):
             findings.append(dict(x["finding"], plan_index=pi))
-    return {"violation": None, "findings": findings, "stats": stats, "digest": hashlib.sha256(r["output"]).hexdigest(), "log_digest": logs.hexdigest()}
+    return {"violation": None, "findings": findings, "stats": stats, "digest": hd, "log_digest": logs.hexdigest(), "programs": progs}
 
 
 def _wrap_findings_as_violations(r):
@@ -648,6 +656,7 @@ def phase_wrappers(prop, tier, seed, report):
     wall = time.time() - t0
     stats = {}
     digests = set()
+    distinct_programs = set()
     shapes = set()
     viol = []
     known = load_known()
@@ -657,6 +666,7 @@ def phase_wrappers(prop, tier, seed, report):
             stats[k] = stats.get(k, 0) + v
         if r.get("digest"):
             digests.add(r["digest"])
+        distinct_programs.update(r.get("programs", []))
         m = hdrgen.gen_model(c["model_seed"])
         shapes.add((len(m["traits"]), len(m["groups"]), len(m["contexts"]), bool(m["no_context"]), c["config"]))
         if r["violation"]:
@@ -672,7 +682,7 @@ def phase_wrappers(prop, tier, seed, report):
                 viol.append((c, f, f.get("plan_index")))
     programs = stats.get("programs", 0)
     report["evaluations"] += programs
-    report["distinct_nontrivial"] += len(digests) * (3 if tier == "quick" else 6)
+    report["distinct_nontrivial"] += len(distinct_programs)
     report["jobs"].append({
         "engine": "wrapsim", "binary": "cglue-bindgen (release, built from /repo); generated wrappers compiled with cc -std=c99 and executed", "header_models": n,
         "c_programs_run": programs - stats.get("programs_cpp", 0), "cpp_programs_run": stats.get("programs_cpp", 0), "of_which_under_asan_ubsan": stats.get("programs_sanitized", 0), "vtable_entry_invocations_through_wrappers": stats.get("slot_calls", 0), "wall_s": round(wall, 2),
